@@ -343,6 +343,46 @@ func c19Faithful(c *core.Ctx) {
 			c.Outcome("required-differs")
 			c.Report(key, "wrong-required", fmt.Sprintf("tag %q: IsRequired()=%v, want %v (only an explicit required=false makes a point optional)", tag, greq, wreq), cs)
 		default:
+			// the parsed arguments are independent values: extending one of them afterwards (what a
+			// user post-processor does through AddArg) changes that one only
+			bad := ""
+			scen.Protect(func() {
+				p := cd.NewProperty(nil, cd.PropertyTypeComponent, "wire", tag)
+				model := map[string][]string{}
+				for k, v := range wargs {
+					model[k] = append([]string{}, v...)
+				}
+				var names []string
+				for k := range model {
+					names = append(names, k)
+				}
+				sort.Strings(names)
+				for _, k := range names {
+					p.AddArg(cd.ArgType(k), "zz")
+					model[k] = append(model[k], "zz")
+					now := map[string][]string{}
+					p.Args().ForEach(func(t cd.ArgType, vs []string) { now[string(t)] = vs })
+					if show(now) != show(model) && bad == "" {
+						bad = fmt.Sprintf("after AddArg(%s, zz) the arguments are {%s}, want {%s}", k, show(now), show(model))
+					}
+				}
+				if req := p.IsRequired(); bad == "" {
+					want := true
+					for _, v := range model["Required"] {
+						if v == "false" {
+							want = false
+						}
+					}
+					if req != want {
+						bad = fmt.Sprintf("after extending every argument IsRequired()=%v, want %v", req, want)
+					}
+				}
+			})
+			if bad != "" {
+				c.Outcome("arguments-alias")
+				c.Report(key, "wrong-arguments", fmt.Sprintf("tag %q: %s", tag, bad), cs)
+				break
+			}
 			c.Outcome(fmt.Sprintf("ok/args=%d/required=%v", len(wargs), wreq))
 		}
 		if c.S.Programs%20000 == 1 {
